@@ -17,7 +17,8 @@ use std::time::{Duration, Instant};
 use text_utils::data::loading::{BufferedIterator, PipelineIterator};
 use text_utils::verif::{self, Event, Monitor, Point};
 
-const STEP_TIMEOUT: Duration = Duration::from_millis(3000);
+// generous: only a wedged implementation ever waits this long; a loaded machine must not false-alarm
+const STEP_TIMEOUT: Duration = Duration::from_millis(10_000);
 
 #[derive(Default)]
 struct CtlState {
